@@ -42,6 +42,16 @@ def run_variant(prop, m, tus=None):
         env = dict(os.environ)
         env['VERIF_REPO'] = tmp
         env['VERIF_NO_EVIDENCE'] = '1'
+        if prop == 'ALL':
+            # a behaviour-preserving rewrite must leave EVERY check silent (one extraction, twenty checks)
+            worst, outs = 0, []
+            for cid in ['C%02d' % i for i in range(1, 21)]:
+                r = subprocess.run([sys.executable, os.path.join(HERE, 'check.py'), cid, '--tier', 'quick'],
+                                   env=env, stdout=subprocess.PIPE, stderr=subprocess.STDOUT, cwd=HERE)
+                if r.returncode != 0:
+                    worst = max(worst, r.returncode)
+                    outs.append('%s exit=%d: %s' % (cid, r.returncode, ' | '.join(l[:200] for l in r.stdout.decode(errors='replace').splitlines()[:3])))
+            return (m['id'], 'ok' if worst == 0 else 'MISMATCH', 'want=silent everywhere\n' + '\n'.join(outs))
         r = subprocess.run([sys.executable, os.path.join(HERE, 'check.py'), prop, '--tier', 'quick'],
                            env=env, stdout=subprocess.PIPE, stderr=subprocess.STDOUT, cwd=HERE)
         out = r.stdout.decode(errors='replace')
@@ -69,7 +79,7 @@ def main():
     ap.add_argument('--only', default=None)
     ap.add_argument('-v', action='store_true')
     a = ap.parse_args()
-    props = [p.upper() for p in a.props] or sorted(MUTANTS)
+    props = [p.upper() for p in a.props] or sorted(MUTANTS)      # 'ALL' = cross-cutting behaviour-preserving rewrites
     jobs = []
     for p in props:
         for m in MUTANTS.get(p, []):
